@@ -45,10 +45,10 @@ where
 
     pub(super) fn finish(&mut self, header: &sam::Header) -> io::Result<()> {
         match self {
-            Self::Sam(writer) => writer.finish(header),
-            Self::SamGz(writer) => writer.finish(header),
-            Self::Bam(writer) => writer.finish(header),
-            Self::BamRaw(writer) => writer.finish(header),
+            Self::Sam(writer) => writer.get_mut().flush(),
+            Self::SamGz(writer) => writer.get_mut().try_finish(),
+            Self::Bam(writer) => writer.try_finish(),
+            Self::BamRaw(writer) => writer.get_mut().flush(),
             Self::Cram(writer) => writer.finish(header),
         }
     }
